@@ -667,6 +667,10 @@ impl File {
         self.update_stamp(v, false)?;
         self.failed_runid = None;
         self.is_override = true;
+        // The recorded checksum describes what redo-stamp last saw, not the hand-made
+        // content: if it were kept, regenerating the file later with that same data
+        // would count as "unchanged" for dependents that were built from the edit.
+        self.csum = String::new();
         Ok(())
     }
 
